@@ -413,7 +413,7 @@ func (r *Run) WriteEvidence() error {
 		tb = append(tb, t)
 	}
 	sort.Strings(tb[2:])
-	var as []string
+	as := []string{"lock regions, where present, are atomic; results hold for the functions under contract, composed through their contracts"}
 	for a := range assumptions {
 		as = append(as, a)
 	}
